@@ -308,6 +308,9 @@ struct Exec {
 		if (actors.size() >= 10 && ok) { ctx.event("skip"); return; }
 		auto na = std::make_unique<Actor>();
 		std::string what;
+		// fault: an open for reading fails inside this call (out of descriptors / file gone between two opens of one name)
+		uint64_t firedBefore = g_fault.firedOpenFail;
+		if (a.kind != Kind::Mem) g_fault.openFailCountdown = op.u("openfail", 0);
 		Out o = call([&] {
 			if (a.kind == Kind::Mem) {
 				auto r = std::make_unique<Stream::MemoryReader>(atPos ? a.mem->Slice(n) : static_cast<const Stream::MemoryReader*>(a.mem)->Slice(s, n));
@@ -320,7 +323,22 @@ struct Exec {
 				na->kind = Kind::FSlice; na->fslice = r.get(); na->obj = std::move(r);
 			}
 		}, &what);
+		g_fault.openFailCountdown = 0;
 		std::string desc = std::string(atPos ? "slice-at-position" : "slice") + " s=" + std::to_string(s) + " n=" + std::to_string(n) + " of actor with length " + std::to_string(a.len) + " at pos " + std::to_string(a.pos);
+		if (g_fault.firedOpenFail != firedBefore) {
+			ctx.count("fault.open_failed_inside_slice_or_copy");
+			desc += " (an open for reading failed inside the call)";
+			if (o == ErrOther) ctx.fail("C13.create-refuse", desc + ": non-std exception");
+			if (o != OkOut) {
+				// refused with an ordinary error: the parent is as before
+				uint64_t p0, l0;
+				{ Armed arm; p0 = a.obj->Position(); l0 = a.obj->Length(); }
+				if (p0 != a.pos || l0 != a.len) ctx.fail("C13.create-refuse", desc + ": refused, but the parent is now at " + std::to_string(p0) + "/" + std::to_string(l0) + ", expected " + std::to_string(a.pos) + "/" + std::to_string(a.len));
+				ctx.event("slice refused by injected open failure");
+				return;
+			}
+			// accepted: then the new reader is a working one, judged like any other below
+		}
 		requireOutcome(o, ok, "C13.create-refuse", "C13.create-refuse", desc, what);
 		if (!ok) {
 			ctx.count("probe.slice_refused");
@@ -340,28 +358,36 @@ struct Exec {
 			if (n == 0) ctx.count("probe.zero_length_slice");
 			uint64_t cp, clen;
 			{ Armed arm; cp = na->obj->Position(); clen = na->obj->Length(); }
-			if (cp != 0 || clen != n) ctx.fail("C13.confined", desc + ": new slice reports position " + std::to_string(cp) + " length " + std::to_string(clen) + ", expected 0/" + std::to_string(n));
+			if (cp != 0 || clen != n) ctx.fail(cp > clen && plan.property == "C12" ? "C12.pos-le-len" : "C13.confined", desc + ": new slice reports position " + std::to_string(cp) + " length " + std::to_string(clen) + ", expected 0/" + std::to_string(n));
 			add(std::move(na));
 			moved = true;
 		}
 		ctx.event(std::string(atPos ? "slicepos " : "slice ") + std::to_string(s) + " " + std::to_string(n) + (ok ? " ok" : " refused"));
 	}
 
-	void opCopy(Actor& a) {
+	void opCopy(Actor& a, const Line& op) {
 		if (actors.size() >= 10) { ctx.event("skip"); return; }
 		auto na = std::make_unique<Actor>();
 		std::string what;
+		uint64_t firedBefore = g_fault.firedOpenFail;
+		if (a.kind != Kind::Mem) g_fault.openFailCountdown = op.u("openfail", 0);
 		Out o = call([&] {
 			if (a.kind == Kind::Mem) { auto r = std::make_unique<Stream::MemoryReader>(*a.mem); na->kind = Kind::Mem; na->mem = r.get(); na->obj = std::move(r); }
 			else if (a.kind == Kind::File) { auto r = std::make_unique<Stream::FileReader>(*a.file); na->kind = Kind::File; na->file = r.get(); na->obj = std::move(r); }
 			else { auto r = std::make_unique<Stream::FileSliceReader>(*a.fslice); na->kind = Kind::FSlice; na->fslice = r.get(); na->obj = std::move(r); }
 		}, &what);
+		g_fault.openFailCountdown = 0;
+		if (g_fault.firedOpenFail != firedBefore) {
+			ctx.count("fault.open_failed_inside_slice_or_copy");
+			if (o == ErrOther) ctx.fail("C13.independent-position", "copying a live reader while an open failed: non-std exception");
+			if (o != OkOut) { ctx.event("copy refused by injected open failure"); return; }
+		}
 		if (o != OkOut) ctx.fail("C13.independent-position", "copying a live reader threw: " + what);
 		na->base = a.base; na->len = a.len; na->depth = a.depth; na->root = a.root;
 		uint64_t cp, clen;
 		{ Armed arm; cp = na->obj->Position(); clen = na->obj->Length(); }
 		// The starting position of a copy is not specified by the property: adopt it, bounded by the length.
-		if (clen != a.len || cp > clen) ctx.fail("C13.confined", "copy reports position " + std::to_string(cp) + " length " + std::to_string(clen) + ", original length " + std::to_string(a.len));
+		if (clen != a.len || cp > clen) ctx.fail(cp > clen && plan.property == "C12" ? "C12.pos-le-len" : "C13.confined", "copy reports position " + std::to_string(cp) + " length " + std::to_string(clen) + ", original length " + std::to_string(a.len));
 		na->pos = cp;
 		add(std::move(na));
 		moved = true;
@@ -583,7 +609,7 @@ struct Exec {
 			else if (v == "seek" || v == "fwd" || v == "back" || v == "begin" || v == "end") opSeek(a, op);
 			else if (v == "slice") opSlice(a, op, false);
 			else if (v == "slicepos") opSlice(a, op, true);
-			else if (v == "copy") opCopy(a);
+			else if (v == "copy") opCopy(a, op);
 			else if (v == "typed") opTyped(a, op);
 			else if (v == "seekrec") opSeekRec(a, op);
 			else if (v == "drop") {
@@ -695,9 +721,9 @@ struct StreamActors : Family {
 			else if (k < 70) { op = mkline("op", "back"); op.set("a", a).set("d", argTok(r, true, oob)); }
 			else if (k < 73) { op = mkline("op", "begin"); op.set("a", a); }
 			else if (k < 76) { op = mkline("op", "end"); op.set("a", a); }
-			else if (k < (c13 ? 86u : 79u)) { op = mkline("op", "slice"); op.set("a", a).set("s", argTok(r, true, 20)).set("n", argTok(r, true, 25)); }
+			else if (k < (c13 ? 86u : 79u)) { op = mkline("op", "slice"); op.set("a", a).set("s", argTok(r, true, 20)).set("n", argTok(r, true, 25)); if (r.chance(1, 6)) op.set("openfail", 1 + r.below(2)); }
 			else if (k < (c13 ? 91u : 81u)) { op = mkline("op", "slicepos"); op.set("a", a).set("n", argTok(r, true, 25)); }
-			else if (k < (c13 ? 95u : 82u)) { op = mkline("op", "copy"); op.set("a", a); }
+			else if (k < (c13 ? 95u : 82u)) { op = mkline("op", "copy"); op.set("a", a); if (r.chance(1, 5)) op.set("openfail", 1 + r.below(2)); }
 			else if (k < (c13 ? 98u : 83u)) { op = mkline("op", "drop"); op.set("a", a); }
 			else if (c13) {
 				// in-bounds reads; half of them through the NUL-terminated string helper (the same bytes, positions and lengths must
